@@ -37,7 +37,11 @@ def _violations(prop: str, root: Optional[str]) -> Tuple[set, List[str]]:
     ctx = Ctx(prop, "quick", root)
     mod.run(ctx)
     bad = {(o.rule, o.construct) for o in ctx.rep.obs if not o.ok and not o.undecided}
+    _LAST_UNDECIDED[prop] = sorted({(o.rule, o.construct) for o in ctx.rep.obs if not o.ok and o.undecided})
     return bad, list(ctx.rep.analysis_errors)
+
+
+_LAST_UNDECIDED: Dict[str, list] = {}
 
 
 def make_copy(src_root: str) -> str:
@@ -89,7 +93,8 @@ def run_entry(args) -> dict:
         else:
             if new_bad or errs:
                 return {"id": entry["id"], "status": "FALSE-ALARM", "detail": f"{new_bad[:3]} {errs[:2]}"}
-            return {"id": entry["id"], "status": "silent"}
+            und = _LAST_UNDECIDED.get(prop, [])
+            return {"id": entry["id"], "status": "silent", "detail": (f"(undecided: {len(und)}: {', '.join(sorted({u[0] for u in und}))})" if und else "")}
     finally:
         shutil.rmtree(tmp, ignore_errors=True)
 
